@@ -42,12 +42,8 @@ Definition win_max (b e : nat) (buf : list V) : V :=
 Definition win_min (b e : nat) (buf : list V) : V :=
   fold_left (fun acc i => vmin acc (nth i buf top)) (seq 0 (S (e - b))) top.
 
-(* PrecedesTimedOperation.update after the two appends *)
-Definition precedes_window (b e : nat) (bl br : list V) : V :=
-  fold_left (fun out i =>
-      let c_left := fold_left (fun c j => vmin c (nth j bl bot)) (seq 0 i) top in
-      vmax out (vmin c_left (nth i br bot)))
-    (seq b (S e - b)) bot.
+(* PrecedesTimedOperation.update after the two appends: Offline.precedes_window, the same double loop
+   as the one of the offline visitTimedPrecedes *)
 
 (* update(sample) of the unary operations *)
 Definition ustep (p : formula) (st : opstate) (x : V) : opstate * V :=
